@@ -1336,3 +1336,55 @@ func ssaReaches(v ssa.Value, pred func(ssa.Value) bool, seen map[ssa.Value]bool,
 	}
 	return false
 }
+
+// c20noCrossLineRewrites (R20, round 8): what a token says is not edited. A strings.Replace(All) whose pattern
+// contains a line break rewrites the rendered text ACROSS lines — the inside of multi-line tokens (raw strings, block
+// comments) included: the token text of the formatted source differs from the original (a raw string value loses
+// leading blanks of its continuation lines) and every pass rewrites it once more. No function of the ast and format
+// packages applies such a replacement.
+func c20noCrossLineRewrites(c *Ctx) {
+	rule := "C20.R20"
+	sites := 0
+	byFn := map[string][]string{}
+	for _, pkg := range []string{goctlAst, goctlFormat} {
+		for _, fn := range c.P.AllFuncs(pkg) {
+			for _, b := range fn.Blocks {
+				for _, ins := range b.Instrs {
+					call, ok := ins.(*ssa.Call)
+					if !ok {
+						continue
+					}
+					cal := call.Call.StaticCallee()
+					if cal == nil || cal.Pkg == nil || cal.Pkg.Pkg.Path() != "strings" {
+						continue
+					}
+					sites++
+					if cal.Name() != "ReplaceAll" && cal.Name() != "Replace" || len(call.Call.Args) < 3 {
+						continue
+					}
+					if k, ok := call.Call.Args[1].(*ssa.Const); ok && k.Value != nil && k.Value.Kind() == constant.String && strings.Contains(constant.StringVal(k.Value), "\n") {
+						root := fn
+						for root.Parent() != nil {
+							root = root.Parent()
+						}
+						name := strings.TrimPrefix(root.RelString(nil), mod)
+						byFn[name] = append(byFn[name], fmt.Sprintf("%s: strings.%s with the pattern %q", c.P.Pos(call.Pos()), cal.Name(), constant.StringVal(k.Value)))
+					}
+				}
+			}
+		}
+	}
+	if len(byFn) == 0 {
+		c.R.Check(sites >= 5, rule, goctlAst+"#cross-line-rewrites", "no function of the ast and format packages replaces a pattern containing a line break in rendered text", "-", fmt.Sprintf("%d calls into package strings", sites), nil, sites)
+		return
+	}
+	var names []string
+	for n := range byFn {
+		names = append(names, n)
+	}
+	sort.Strings(names)
+	for _, n := range names {
+		sort.Strings(byFn[n])
+		c.R.Fail(rule, n+"#rewrites-rendered-text", "no function of the ast and format packages replaces a pattern containing a line break in rendered text (the inside of multi-line tokens would be edited)", "-", strings.Join(byFn[n], "; "), byFn[n])
+	}
+}
